@@ -6,6 +6,7 @@ package qframe
 
 import (
 	"bytes"
+	"math"
 	"strconv"
 	"strings"
 
@@ -14,10 +15,17 @@ import (
 	"github.com/tobgu/qframe/types"
 )
 
-// c12cell: a cell of 0..1 bytes over {'1','7','t','x','.'}.
+// c12cell: a cell of 0..1 bytes over {'1','7','t','x','.'}, or one of "-0", "1.5".
 func c12cell() string {
 	if vx.Bool() {
 		return ""
+	}
+	if vx.Bool() {
+		// spellings whose value depends on the type they are read as
+		if vx.Bool() {
+			return "-0"
+		}
+		return "1.5"
 	}
 	b := vx.Byte()
 	vx.Assume(vx.Or(vx.Or(b == '1', b == '7'), vx.Or(b == 't', vx.Or(b == 'x', b == '.'))))
@@ -83,7 +91,7 @@ func VX_C12_infer() {
 						vx.Check(v.ItemAt(r) != v.ItemAt(r), "empty float cell is NaN")
 					} else {
 						want, _ := strconv.ParseFloat(s, 64)
-						vx.Check(v.ItemAt(r) == want, "float cell value")
+						vx.Check(math.Float64bits(v.ItemAt(r)) == math.Float64bits(want), "float cell value (bit-identical)")
 					}
 				}
 			}
@@ -141,6 +149,26 @@ func VX_C12_options() {
 		}
 		g := ReadCSV(strings.NewReader("a,a\n"+c1+","+c2+"\n"), csv.Types(str))
 		vx.Check(g.Err != nil, "duplicate column names are an error by default")
+	case "rename_dup_later": // a later column already has the name a generated candidate would get
+		f := ReadCSV(strings.NewReader("a,a,a0\n"+c1+","+c2+",z\n"), csv.RenameDuplicateColumns(true), csv.Types(map[string]string{"a": "string", "a0": "string", "a1": "string", "a00": "string"}))
+		vx.Check(f.Err == nil, "RenameDuplicateColumns: no error")
+		if f.Err == nil {
+			n := f.ColumnNames()
+			vx.Check(len(n) == 3 && n[0] == "a" && n[2] == "a0" && n[1] != "a" && n[1] != "a0", "the duplicate gets a fresh name, names that are unique in the document stay")
+			if len(n) == 3 && f.Contains("a0") {
+				vx.Check(*f.MustStringView("a0").ItemAt(0) == "z" && *f.MustStringView(n[1]).ItemAt(0) == c2 && *f.MustStringView("a").ItemAt(0) == c1, "cells stay with their columns")
+			}
+		}
+	case "enum_map_reuse": // the caller's EnumValues map may be used for several reads
+		vals := map[string][]string{"a": {"b", "c"}}
+		typ := csv.Types(map[string]string{"a": "enum"})
+		f := ReadCSV(strings.NewReader("a\nb\n"), typ, csv.EnumValues(vals))
+		g := ReadCSV(strings.NewReader("a\nzz\n"), typ, csv.EnumValues(vals))
+		h := ReadCSV(strings.NewReader("a\n"+c1+"\n"), typ, csv.EnumValues(vals))
+		vx.Check(f.Err == nil, "first read with declared values")
+		vx.Check(g.Err != nil, "a later read with the same declared values still rejects an undeclared cell")
+		vx.Check((h.Err == nil) == (c1 == "b" || c1 == "c"), "declared values accept exactly the declared cells")
+		vx.Check(len(vals) == 1 && len(vals["a"]) == 2 && vals["a"][0] == "b" && vals["a"][1] == "c", "the caller's map is not modified")
 	case "missing_alias":
 		f := ReadCSV(strings.NewReader("a,\n"+c1+","+c2+"\n"), csv.MissingColumnNameAlias("m"), csv.Types(str))
 		vx.Check(f.Err == nil, "MissingColumnNameAlias: no error")
